@@ -1,0 +1,7 @@
+//go:build !verif
+
+package amm
+
+import sdkmath "cosmossdk.io/math"
+
+func verifNoteUndistributed(sdkmath.Int) {}
